@@ -55,6 +55,13 @@ pub struct MirrorCase {
     /// start only when the producer is done — a single poll then meets the whole stream
     #[serde(default)]
     pub backlog: Option<usize>,
+    /// late attachment: the producer performs this many operations before any channel exists;
+    /// then a consumer is seeded with a snapshot of its node list (`Bdd::from(nodes)`, what the
+    /// web service's database layer does), the channel is attached on both sides
+    /// (`set_receiver` / `set_sender`) and the consumer follows from there, polling after every
+    /// further operation
+    #[serde(default)]
+    pub snapshot_prelude: Option<usize>,
 }
 
 pub struct Mirror {
@@ -175,6 +182,58 @@ impl Mirror {
     }
 }
 
+impl Mirror {
+    /// Late attachment (sequential: the schedule is the position of the attachment and the
+    /// poll targets): producer works, consumer = snapshot of its node list, channel attached,
+    /// producer goes on, consumer polls after every operation. At every poll the consumer's
+    /// table is a prefix of the producer's, at the end both are identical and canonical.
+    fn snapshot_follow(&self, case: &MirrorCase, k: usize, nvars: usize) -> Option<Violation> {
+        let r = std::panic::catch_unwind(|| {
+            let mut producer = Bdd::new();
+            let mut res = vec![Term::BOT, Term::TOP];
+            let k = k.min(case.ops.len());
+            for op in &case.ops[..k] {
+                let t = apply(&mut producer, &res, op, nvars);
+                res.push(t);
+            }
+            let mut consumer = Bdd::from(producer.nodes.clone());
+            if consumer.nodes != producer.nodes {
+                return Some(("snapshot", "rebuild-differs", format!("Bdd::from(nodes) of a {}-entry table gave {} entries", producer.nodes.len(), consumer.nodes.len())));
+            }
+            let (s, r) = crossbeam_channel::unbounded::<BddNode>();
+            consumer.set_receiver(r);
+            producer.set_sender(s);
+            for (i, op) in case.ops[k..].iter().enumerate() {
+                let t = apply(&mut producer, &res, op, nvars);
+                res.push(t);
+                let target = case.recv.get(i % case.recv.len().max(1)).copied().unwrap_or(u64::MAX);
+                let target = if target == u64::MAX { usize::MAX } else { target as usize };
+                let found = consumer.recv(Term(target));
+                let n = consumer.nodes.len();
+                if n > producer.nodes.len() || consumer.nodes[..] != producer.nodes[..n] {
+                    return Some(("prefix", "snapshot-consumer", format!("after operation {} ({op:?}) and recv({}): consumer {} is not a prefix of producer {}", k + i, target as i64, fmt_nodes(&consumer.nodes), fmt_nodes(&producer.nodes))));
+                }
+                if found != (target < n) {
+                    return Some(("found-flag", "snapshot-consumer", format!("recv(Term({})) answered {found} with {n} nodes present", target as i64)));
+                }
+            }
+            let _ = consumer.recv(Term(usize::MAX));
+            if consumer.nodes != producer.nodes {
+                return Some(("final-equality", "snapshot-consumer", format!("after draining: consumer {} vs producer {}", fmt_nodes(&consumer.nodes), fmt_nodes(&producer.nodes))));
+            }
+            if let Err((class, m)) = canon_check(&consumer.nodes) {
+                return Some(("canonical-mirror", "snapshot-consumer", format!("{class}: {m}")));
+            }
+            None
+        });
+        match r {
+            Ok(None) => None,
+            Ok(Some((o, c, m))) => self.viol(o, c, format!("late attachment after {k} operations: {m}")),
+            Err(p) => self.viol("no-panic", "snapshot-consumer", format!("late attachment after {k} operations: {}", simcore::panics::payload_to_string(p.as_ref()))),
+        }
+    }
+}
+
 impl Scenario for Mirror {
     type Case = MirrorCase;
 
@@ -259,6 +318,8 @@ impl Scenario for Mirror {
             cap2,
             semantics_tail,
             backlog,
+            // drawn last
+            snapshot_prelude: if rng.chance(1, 8) { Some(rng.below(n_ops as u64 + 1) as usize) } else { None },
         }
     }
 
@@ -554,6 +615,12 @@ impl Scenario for Mirror {
 
         // ---- verdicts ----
         let c19 = self.property == "C19";
+        if let Some(k) = case.snapshot_prelude {
+            stats.inc("late_attachments_on_a_snapshot");
+            if let Some(v) = self.snapshot_follow(case, k, nvars) {
+                return mk(Some(v), stats);
+            }
+        }
         if let Some(a) = &out.abort {
             let v = match a {
                 Abort::Deadlock(b) => self.viol("liveness", "deadlock", format!("all threads blocked: {b:?}")),
